@@ -79,6 +79,19 @@ func H13_Algorithms() {
 	switch algo {
 	case "dtlsr":
 		dst = dtlsrBroadcastAddress
+		// a broadcast bundle usually carries its originator's link-state data: none / data the node has not seen /
+		// data that is not newer than what the node already holds for that originator (re-broadcast, late arrival)
+		origin := bpv7.MustNewEndpointID("dtn://origin/")
+		switch verif.Choose("linkstate", 3) {
+		case 1:
+			extra = append(extra, bpv7.NewCanonicalBlock(0, 0, bpv7.NewDTLSRBlock(bpv7.DTLSRPeerData{ID: origin, Timestamp: 5, Peers: map[bpv7.EndpointID]bpv7.DtnTime{}})))
+		case 2:
+			older := dataBundle("dtn://origin/", dtlsrBroadcastAddress, 7, func(bl *bpv7.BundleBuilder) {
+				bl.Canonical(bpv7.NewDTLSRBlock(bpv7.DTLSRPeerData{ID: origin, Timestamp: 9, Peers: map[bpv7.EndpointID]bpv7.DtnTime{}}))
+			})
+			c.routing.NotifyNewBundle(NewBundleDescriptorFromBundle(older, c.store))
+			extra = append(extra, bpv7.NewCanonicalBlock(0, 0, bpv7.NewDTLSRBlock(bpv7.DTLSRPeerData{ID: origin, Timestamp: 5, Peers: map[bpv7.EndpointID]bpv7.DtnTime{}})))
+		}
 	case "binary_spray":
 		extra = append(extra, bpv7.NewCanonicalBlock(0, 0, bpv7.NewBinarySprayBlock(8)))
 	}
